@@ -38,6 +38,15 @@ CHECKS = {
          "words at every phase, every single split point of canonical exchanges. Exhaustive over the enumerated families only.",
          "in-memory TCP stream (real asyncio.StreamReader, recording writer). " + TRUST,
          "DESIGN.md section 4, C07"),
+ "C05": ("TLA+ model of N callers sharing one client lock (FIFO hand-over, per-caller reply scripts, cancellation at any "
+         "await point) model-checked by TLC; exchange-atomicity monitor (UdsClientMutexContract) used by TLC to validate "
+         "the transport log of real concurrent ECU/UDSClient users, enumerated over arrival orders, delays, reply scripts "
+         "and cancellation points",
+         "Exhaustive model checking for 2-3 (thorough: 4) callers x all reply scripts x one cancellation anywhere; TLC trace "
+         "validation of every real schedule of 2-3 tasks (incl. the real tester-present worker and reconnect) up to the "
+         "enumeration depth, 4-5 tasks sampled. Exhaustive over the enumerated schedules only.",
+         "scripted transport tags every call with the calling task; TracedECU subclass only adds entry/exit records. " + TRUST,
+         "DESIGN.md section 4, C05"),
 }
 PENDING = {}
 
